@@ -166,3 +166,38 @@ _ns = fcontract('NullStripped', '_parse', [
 ], loops={'while end - unit >= 0 and data[end - unit:end] == pad': LoopSpec(_ns_inv, variant=lambda L: L.eng.as_int(L['end'], L.st)[0], variant_tags=('C06',), tags=('C08', 'C03'), havoc_kinds={}, modifies=())},
     tags=('C08', 'C03', 'C06'))
 _ns.variants = [VariantDict(pad_len=u) for u in (1, 2, 3)]
+
+
+# ================================================================================================ OffsettedEnd._parse (C08)
+# The region runs from the current position to (end of stream + endoffset); the inner construct sees exactly it (absolute
+# offsets kept) and the outer stream stands at the region end.
+from .prims import _param_int  # noqa
+
+
+def _oe_len(pre):
+    o = S_(pre)
+    return t.sub(t.add(o.len, _param_int(pre, 'endoffset')), o.pos)
+
+
+def _oe_inner(pre):
+    o = S_(pre)
+    return Sub(pre, 'subcon', o=Region(o.buf, o.pos, _oe_len(pre), t.add(o.pos, _abs_base(o))))
+
+
+def _oe_guard(pre):
+    o = S_(pre)
+    n = _oe_len(pre)
+    return t.and_(t.ge(n, t.ZERO), t.le(n, _avail(o)), _oe_inner(pre).ok)
+
+
+def _oe_ok(pre, post):
+    o, o2 = S_(pre), post.obj('stream')
+    return [('inner-construct-sees-exactly-the-bytes-up-to-the-end-offset', result_is(post, _oe_inner(pre).val), ('C08', 'C03')),
+            ('outer-stream-stands-at-the-end-offset', t.eq(o2.pos, t.add(o.pos, _oe_len(pre))), ('C08',)),
+            ('buffer-unchanged', buffer_same(pre, post), ('C17', 'C08'))]
+
+
+fcontract('OffsettedEnd', '_parse', [
+    Case('ok', 'return', _oe_guard, ensures=_oe_ok, rkind=rk_dyn, modifies=['stream']),
+    Case('fails', 'raise', lambda pre: t.not_(_oe_guard(pre)), ensures=generic_raise, modifies=['stream']),
+], tags=('C08', 'C03'), models=('bytesio',))
